@@ -191,6 +191,19 @@ func buildRound(r *ev.Run, rng *rand.Rand, round int) []Spec {
 	for i := 0; i < nk; i++ {
 		add(Spec{Kind: "concurrent", Backend: "regionstorage", IDGen: pick(rng, idGensNoMax), N: 50 + rng.Intn(600), End: pick(rng, ends)})
 	}
+	// ---- concurrent LoadRegionsOnce while a load is provably in flight (Keys = where the first load is
+	// parked, W = number of concurrent callers, Hist = whether the first load is made to fail)
+	for _, pos := range []string{"first", "middle", "last"} {
+		for _, callers := range []int{2, 3} {
+			for _, h := range []string{"first-load-completes", "first-load-fails"} {
+				reps := r.Pick(1, 2)
+				for k := 0; k < reps; k++ {
+					n := []int{3, 10, 60, 200, 450}[rng.Intn(5)]
+					add(Spec{Kind: "once", Backend: "regionstorage", IDGen: pick(rng, []string{"dense1", "dense-offset", "sparse-no-max", "near-2^63", "pow10"}), N: n, Hist: h, Keys: pos, W: callers, End: pick(rng, ends)})
+				}
+			}
+		}
+	}
 	return cs
 }
 
@@ -211,6 +224,8 @@ func (x *runner) runCase(sp Spec) {
 		x.runCrash(sp)
 	case "concurrent":
 		x.runConcurrent(sp)
+	case "once":
+		x.runOnce(sp)
 	default:
 		x.r.Inconclusive("unknown case kind %q", sp.Kind)
 		return
@@ -280,6 +295,9 @@ func main() {
 		}
 		if r.Counter("loads_with_reduced_page_size") == 0 {
 			r.Inconclusive("the emulated response limit never forced the page size down")
+		}
+		if r.Counter("once_first_load_parked_in_flight") == 0 || r.Counter("once_calls_returned_nil") == 0 {
+			r.Inconclusive("no concurrent LoadRegionsOnce case had a load parked in flight")
 		}
 		if r.Counter("prune_cases_that_pruned") == 0 {
 			r.Inconclusive("no pruning case pruned anything")
